@@ -31,6 +31,7 @@ fn build_suite(name: &str, params: &Value) -> Box<dyn Suite + Send + Sync> {
         "seeds" => Box::new(Seeds { seeds: load_seeds(&seeds_path) }),
         "truncations" => Box::new(Truncations::new(load_seeds(&seeds_path), params["stride"].as_u64().unwrap_or(1) as usize)),
         "splices" => Box::new(Splices { seeds: load_seeds(&seeds_path), count: params["count"].as_u64().unwrap(), seed: params["seed"].as_u64().unwrap_or(0) }),
+        "asm" => Box::new(Asm { count: params["count"].as_u64().unwrap_or(1000), seed: params["seed"].as_u64().unwrap_or(0) }),
         "scaled" => Box::new(Scaled { max_k: params["max_k"].as_u64().unwrap_or(40) as u32 }),
         "grid" => {
             let nums = |v: &Value| -> Vec<usize> { v.as_array().map(|a| a.iter().map(|x| x.as_u64().unwrap() as usize).collect()).unwrap_or_default() };
@@ -48,6 +49,7 @@ fn build_suite(name: &str, params: &Value) -> Box<dyn Suite + Send + Sync> {
                     regions: o["regions"].as_bool().unwrap_or(false),
                     tight: o["tight"].as_bool().unwrap_or(false),
                     cr_comments: o["cr_comments"].as_bool().unwrap_or(false),
+                    regions2: o["regions2"].as_bool().unwrap_or(false),
                     spacing_mode: o["mode"].as_u64().unwrap_or(1) as u32,
                 })
             }).collect();
